@@ -12,6 +12,7 @@ Exit codes: 0 all obligations proved within their bounds, witnesses reachable;
 1 a replayed violation not listed in known_findings.json; 2 inconclusive.
 """
 import concurrent.futures as cf
+import threading
 import hashlib, json, os, re, resource, shutil, signal, subprocess, sys, threading, time
 
 ROOT = os.path.dirname(os.path.dirname(os.path.abspath(__file__)))
@@ -630,8 +631,23 @@ def main():
         if replay:
             sys.exit(do_replay(pid, P, replay, scratch))
         recs = []
+        # memory-aware admission: obligations run in parallel as long as the sum of their (halved) memory caps fits
+        # the budget - eight 30 GB solver runs at once exhaust the machine and every one of them then reports "oom"
+        try: total_gb = int(open('/proc/meminfo').readline().split()[1]) / (1 << 20)
+        except Exception: total_gb = 32
+        budget = float(os.environ.get('VERIF_MEM_GB', total_gb * 0.8))
+        cond = threading.Condition(); state = {'avail': budget}
+        def gated(o):
+            w = min(budget, max(2.0, o.get('mem_gb', 12) / 2.0))
+            with cond:
+                while state['avail'] < w: cond.wait()
+                state['avail'] -= w
+            try: return do_obligation(pid, o, tier, scratch, fids, known)
+            finally:
+                with cond:
+                    state['avail'] += w; cond.notify_all()
         with cf.ThreadPoolExecutor(max(1, jobs)) as ex:
-            futs = [ex.submit(do_obligation, pid, o, tier, scratch, fids, known) for o in obs]
+            futs = [ex.submit(gated, o) for o in obs]
             for f, o in zip(futs, obs):
                 r = f.result(); recs.append(r)
                 s = r.get('solver', {})
